@@ -95,6 +95,9 @@ func genC09(t *rapid.T) CaseC09 {
 		c.Map = genExoticMap(t, 3, c.Prefix)
 	case 3:
 		c.Map, _ = boostTwoIndexed(t)
+	case 4:
+		// empty member names on the way to a leaf (never as the last key: "a." cannot address the member "" of a)
+		c.Map, _, _ = boostEmptyKey(t)
 	default:
 		sh := genRootShape(t, false)
 		c.Map = instantiate(t, sh).(map[string]interface{})
@@ -114,32 +117,37 @@ type refLeaf struct {
 	val  interface{}
 }
 
-func refLeaves(v interface{}, path string, c CaseC09, out *[]refLeaf) {
+// refLeaves: named tells whether a key has been added to path already (an empty path may be the path of the empty key:
+// what follows it is joined with a dot like after any other key).
+func refLeaves(v interface{}, path string, c CaseC09, out *[]refLeaf) { refLeavesAt(v, path, path != "", c, out) }
+
+func refLeavesAt(v interface{}, path string, named bool, c CaseC09, out *[]refLeaf) {
 	switch x := v.(type) {
 	case map[string]interface{}:
 		for _, k := range sortedKeys(x) {
 			if c.NoAttr && c.Prefix != "" && strings.HasPrefix(k, c.Prefix) {
 				continue
 			}
-			p := path
+			p, n := path, named
 			if !(c.NoAttr && k == "#text") {
-				if p != "" {
+				if n {
 					p += "."
 				}
 				p += k
+				n = true
 			}
-			refLeaves(x[k], p, c, out)
+			refLeavesAt(x[k], p, n, c, out)
 		}
 	case []interface{}:
 		for i, vv := range x {
 			if c.Dot {
 				p := strconv.Itoa(i)
-				if path != "" {
+				if named {
 					p = path + "." + p
 				}
-				refLeaves(vv, p, c, out)
+				refLeavesAt(vv, p, true, c, out)
 			} else {
-				refLeaves(vv, path+"["+strconv.Itoa(i)+"]", c, out)
+				refLeavesAt(vv, path+"["+strconv.Itoa(i)+"]", true, c, out)
 			}
 		}
 	default:
